@@ -53,9 +53,7 @@ const FORMATS: &[(&str, bool, bool)] = &[
     // the 12-hour formats as the book documents them (book/src/basics/date-and-time.md)
     ("%Y-%m-%d %I:%M:%S%.f %p %z", false, false),
     ("%Y/%m/%d %I:%M:%S%.f %p %z", false, false),
-    // the 12-hour formats as datetime.rs implements them
-    ("%Y-%m-%d %I:%M:%S %p%.f %z", false, false),
-    ("%Y/%m/%d %I:%M:%S %p%.f %z", false, false),
+    // (the undocumented `%p%.f` order that datetime.rs used to implement was repaired by a fix: commit)
 ];
 
 #[derive(Clone, Debug)]
